@@ -298,50 +298,70 @@ def check(prog, run):
         run.report(r, "%s:apply_middlewares:return" % UTILS, am.where(), "the wrapped chain is not what is returned")
     fr = prog.get_func(EXE, "Executor.field_resolver")
     run.looked_at(fr)
-    n_apply = [n for n in own_nodes(fr.node) if isinstance(n, ast.Call) and isinstance(n.func, ast.Name) and n.func.id == "apply_middlewares"]
-    r.instance("field_resolver apply_middlewares calls: %d" % len(n_apply))
-    if len(n_apply) != 1:
-        run.report(r, "%s:Executor.field_resolver:applications" % EXE, fr.where(), "apply_middlewares is called %d times" % len(n_apply))
-    else:
-        c = n_apply[0]
-        in_handler = False
-        cur = c
-        while getattr(cur, "_parent", None) is not None:
-            if isinstance(cur._parent, ast.ExceptHandler) and "KeyError" in ast.unparse(cur._parent.type):
-                in_handler = True
-            cur = cur._parent
-        if not in_handler:
-            run.report(r, "%s:Executor.field_resolver:not-on-miss" % EXE, fr.where(c), "middlewares are applied outside the cache-miss branch (re-applied on every call)")
-        st = c
-        while not isinstance(st, ast.stmt):
-            st = st._parent
-        tgt = ast.unparse(st.targets[0]) if isinstance(st, ast.Assign) else None
-        src = ast.unparse(c.args[0])
-        stores = [n for n in own_nodes(fr.node) if isinstance(n, ast.Assign) and ast.unparse(n.targets[0]).startswith("self._resolver_cache[")]
-        if tgt is None or tgt != src or not stores or ast.unparse(stores[0].value) != tgt:
-            run.report(r, "%s:Executor.field_resolver:store" % EXE, fr.where(c), "the middleware-wrapped resolver is not the value stored in / returned from the cache")
-        mw = ast.unparse(c.args[1])
-        if isinstance(c.args[1], ast.Name):
-            srcs = [ast.unparse(n.value) for n in own_nodes(fr.node) if isinstance(n, ast.Assign) and ast.unparse(n.targets[0]) == mw]
-            if len(srcs) == 1:
-                mw = srcs[0]
-        if mw != "self._middlewares":
-            run.report(r, "%s:Executor.field_resolver:which-middlewares" % EXE, fr.where(c), "not the configured middlewares")
-    # path form: with middlewares configured, every cache-miss execution applies the chain before storing/returning
+    # path form, interprocedural: with middlewares configured, every cache-miss execution of field_resolver goes through
+    # apply_middlewares exactly once (counting through same-module helpers it delegates to), with the configured list,
+    # and returns the very value it stored in the cache; with none configured, apply_middlewares is not needed.
+    import re
     from .. import boolx
+    from ..canon import Canon
+    MW = re.compile(r"^\w+\._middlewares$")
+
+    def applications(f, configured, depth=0):
+        """set of (number of apply_middlewares calls, their middleware arguments) over the non-cache-hit returning executions."""
+        try:
+            _ev, exits = boolx.walk_under(f.node, lambda t: configured if MW.match(t) else None)
+        except ValueError as e:
+            raise AnalysisError("C16.H5: %s" % e)
+        cn = Canon(f.node)
+        out = set()
+        for k, st, env in exits:
+            if k != "return":
+                continue
+            if isinstance(st.value, ast.Subscript) and "_resolver_cache" in ast.unparse(st.value):
+                continue
+            totals = {(0, ())}
+            for c in env.get(boolx.CALLS, ()):
+                if isinstance(c.func, ast.Name) and c.func.id == "apply_middlewares":
+                    arg = cn.text(c.args[1]) if len(c.args) > 1 else "?"
+                    totals = {(n + 1, a + (arg,)) for n, a in totals}
+                elif depth < 2 and isinstance(c.func, (ast.Name, ast.Attribute)):
+                    cal = [x for x in prog.resolve_call(f, c) if x.module is f.module and x.name not in ("field_resolver", "__init__")]
+                    if len(cal) == 1 and any(isinstance(y, ast.Call) and isinstance(y.func, ast.Name) and y.func.id == "apply_middlewares"
+                                             for y in ast.walk(cal[0].node)):
+                        run.looked_at(cal[0])
+                        sub = applications(cal[0], configured, depth + 1)
+                        totals = {(n + m, a + b) for n, a in totals for m, b in sub}
+            out |= totals
+        return out
+    got = applications(fr, True)
+    r.instance("field_resolver, middlewares configured: apply_middlewares applications per cache-miss execution %s" % sorted(got))
+    shapes.require(bool(got), "C16.H5: no cache-miss return path found in field_resolver")
+    if any(n == 0 for n, _a in got):
+        run.report(r, "%s:Executor.field_resolver:path-without-middlewares" % EXE, fr.where(),
+                   "with middlewares configured, field_resolver can return a resolver that did not go through apply_middlewares: "
+                   "those fields are resolved outside every middleware")
+    elif any(n != 1 for n, _a in got):
+        run.report(r, "%s:Executor.field_resolver:applications" % EXE, fr.where(), "apply_middlewares is applied %s times on a cache miss" % sorted({n for n, _a in got}))
+    elif any(not MW.match(a) for _n, args in got for a in args):
+        run.report(r, "%s:Executor.field_resolver:which-middlewares" % EXE, fr.where(), "not the configured middlewares: %s" % sorted({a for _n, args in got for a in args}))
+    # cache discipline: a hit returns the cached value (checked by the cache rules); on a miss the stored value is the returned one
     try:
-        _ev, exits = boolx.walk_under(fr.node, lambda t: True if t == "self._middlewares" else None)
+        _ev, fexits = boolx.walk_under(fr.node, lambda t: None)
     except ValueError as e:
         raise AnalysisError("C16.H5: %s" % e)
-    miss = [(k, st, env) for k, st, env in exits if k == "return" and not (isinstance(st.value, ast.Subscript) and "_resolver_cache" in ast.unparse(st.value))]
-    r.instance("field_resolver: %d cache-miss return paths with middlewares configured" % len(miss))
-    shapes.require(bool(miss), "C16.H5: no cache-miss return path found in field_resolver")
-    for k, st, env in miss:
-        if not any(isinstance(c.func, ast.Name) and c.func.id == "apply_middlewares" for c in env.get(boolx.CALLS, ())):
-            cond = ", ".join("%s=%s" % kv for kv in sorted(env.items()) if kv[0] not in boolx.META)
-            run.report(r, "%s:Executor.field_resolver:path-without-middlewares" % EXE, fr.where(st),
-                       "with middlewares configured, field_resolver can return a resolver that did not go through apply_middlewares "
-                       "(when %s): those fields are resolved outside every middleware" % cond)
+    for k, st, env in fexits:
+        if k != "return" or (isinstance(st.value, ast.Subscript) and "_resolver_cache" in ast.unparse(st.value)):
+            continue
+        atoms = {a: b for a, b in env.items() if a not in boolx.META}
+        stmts = env.get(boolx.STMTS, ())
+        stores = [x for x in stmts if isinstance(x, ast.Assign) and ast.unparse(x.targets[0]).startswith("self._resolver_cache[")]
+        in_handler = any(h.type is not None and "KeyError" in ast.unparse(h.type) for h in env.get(boolx.HANDLERS, ()))
+        if not in_handler:
+            run.report(r, "%s:Executor.field_resolver:not-on-miss" % EXE, fr.where(st), "a resolver is built outside the cache-miss branch (middlewares re-applied on every call)")
+            break
+        ret = ast.unparse(boolx.path_value(stmts, st, st.value, atoms))
+        if not stores or ast.unparse(boolx.path_value(stmts, stores[-1], stores[-1].value, atoms)) != ret:
+            run.report(r, "%s:Executor.field_resolver:store" % EXE, fr.where(st), "the middleware-wrapped resolver is not the value stored in / returned from the cache")
             break
     for mod, q in ((EXE, "Executor.resolve_field"), (BEXE, "BlockingExecutor.resolve_field")):
         f = prog.get_func(mod, q)
